@@ -290,6 +290,24 @@ int vs_cond_broadcast(pthread_cond_t *c) {
   schedule();
   return 0;
 }
+// close(2) as called by writer.c / sorter.c / reader.c in the scheduler build.  Two things:
+//  * closing a descriptor number that is not open (a double close) is harmless only while nothing else runs: between the two
+//    closes another thread can be handed the same number by open/mkstemp/dup, and the second close then pulls it from under
+//    that thread.  So EBADF here is a violation of "same result under every interleaving" in its own right;
+//  * the call is a scheduling point, so that such a window is also explored.
+int vs_close(int fd) {
+  int r = close(fd);
+  int e = errno;
+  if (S) {
+    if (r != 0 && e == EBADF)
+      violation("close() of descriptor " + std::to_string(fd) + ", which is not open (closed twice): another thread can have been given that number in between");
+    Thread *me = S->th[(size_t)S->cur];
+    me->st = RUNNABLE;
+    schedule();
+  }
+  errno = e;
+  return r;
+}
 static void *vs_trampoline(void *p) {
   Thread *me = (Thread *)p;
   sem_wait(&me->sem);  // first scheduled
